@@ -674,6 +674,11 @@ import json, os, sys
 sys.path.insert(0, sys.argv[1])
 os.chdir(sys.argv[2])
 import in_toto.runlib as rl
+if os.environ.get("C13_SETLOCALE_AFTER_IMPORT"):
+    # the application switches to its real locale only after importing in-toto: text-mode streams opened from now on
+    # (and the capture) follow the locale in force when they are used
+    import locale
+    locale.setlocale(locale.LC_ALL, os.environ["C13_SETLOCALE_AFTER_IMPORT"])
 os.makedirs("d/sub", exist_ok=True)
 open("d/f", "w").write("x\n"); open("d/sub/g", "w").write("y\n")
 child = [sys.executable, "-c", "import sys; sys.stdout.buffer.write('caf\\u00e9 \\u65e5\\u672c\\r\\n'.encode('utf-8')); sys.stderr.buffer.write('\\u00fc\\n'.encode('utf-8'))"]
@@ -716,7 +721,11 @@ def call_history(ctx):
     # a UTF-8 locale; and the C locale with Python's UTF-8 mode on (text-mode streams are UTF-8 there although the
     # locale's own codeset is ASCII): the capture is decoded like any text-mode stream of the process
     for label, extra in (("UTF-8 locale", {"LANG": "C.UTF-8", "LC_ALL": "C.UTF-8", "PYTHONUTF8": "0", "PYTHONCOERCECLOCALE": "0"}),
-                         ("C locale, UTF-8 mode", {"LANG": "C", "LC_ALL": "C", "PYTHONUTF8": "1"})):
+                         ("C locale, UTF-8 mode", {"LANG": "C", "LC_ALL": "C", "PYTHONUTF8": "1"}),
+                         ("C locale at import, C.UTF-8 set by the application afterwards",
+                          {"LANG": "C", "LC_ALL": "C", "PYTHONUTF8": "0", "PYTHONCOERCECLOCALE": "0",
+                           "C13_SETLOCALE_AFTER_IMPORT": "C.UTF-8",
+                           "PYTHONIOENCODING": "utf-8"})):       # (the tool also echoes the output to this process's stdout)
         p = subprocess.run([sys.executable, script, core.REPO, wd], env=dict(os.environ, **extra), capture_output=True, text=True,
                            timeout=300)
         try:
